@@ -6,18 +6,18 @@ id=$1; n=$2; wt=/tmp/wt-$id; sd=/tmp/seed-$id/$n
 L="-L$wt/lib/upipe/.libs -L$wt/lib/upipe-modules/.libs -L$wt/lib/upump-ev/.libs -L$wt/lib/upipe-pthread/.libs"
 LP="$wt/lib/upipe/.libs:$wt/lib/upipe-modules/.libs:$wt/lib/upump-ev/.libs:$wt/lib/upipe-pthread/.libs"
 demo() { # build+run demo, echo exit code
-  if [ -f $sd/demo.c ]; then
+  if [ -f $sd/demo.c ] && [ ! -f $sd/demo.sh ]; then
     cc -g -I$wt/include -I$wt $sd/demo.c $L -lupipe_modules -lupipe_pthread -lupump_ev -lupipe -lev -lpthread -lm -o $sd/demo.bin >$sd/demo.build.log 2>&1 || { echo build-fail; return; }
     ( cd $sd && LD_LIBRARY_PATH=$LP timeout 60 ./demo.bin >$sd/demo.out 2>&1; echo $? )
   else
-    ( cd $sd && WT=$wt timeout 120 sh ./demo.sh >$sd/demo.out 2>&1; echo $? )
+    ( cd $sd && WT=$wt BS=/verif/stubs timeout 300 sh ./demo.sh >$sd/demo.out 2>&1; echo $? )
   fi
 }
 git -C $wt checkout -- . ; make -C $wt -j16 >/dev/null 2>&1
 clean=$(demo)
 git -C $wt apply $sd/patch.diff || { echo '{"ok":false,"why":"patch does not apply"}' > $sd/verify.json; exit 1; }
 if make -C $wt -j16 >$sd/make.log 2>&1; then built=true; else built=false; fi
-make -k -C $wt/tests check -j16 >$sd/check.log 2>&1
+flock /tmp/upipe-tests.lock make -k -C $wt/tests check -j16 >$sd/check.log 2>&1
 pass=$(grep -c '^PASS:' $sd/check.log); fail=$(grep '^FAIL:' $sd/check.log | tr '\n' ' ')
 mut=$(demo)
 git -C $wt checkout -- . ; make -C $wt -j16 >/dev/null 2>&1
